@@ -71,9 +71,37 @@ def field_fn(l: SList, f: str) -> Callable:
     return l.ghost["rec_fields"][f][1]
 
 
+def _set_seq(l: SList, new_seq) -> None:
+    """replace the sequence a seq-backed list stands for (in place: the list object keeps its identity)"""
+    make = l.ghost.get("seq_make")
+    if make is not None:
+        fresh = make(new_seq)
+        keep = {k: v for k, v in l.ghost.items() if k not in fresh.ghost}
+        l.ghost = dict(fresh.ghost)
+        l.ghost.update(keep)
+        l.ghost["seq"] = new_seq
+        l.elem = fresh.elem
+        l.length = fresh.length
+    else:
+        l.ghost["seq"] = new_seq
+        l.length = SInt(z3.Length(new_seq), 0, None)
+        l.elem = lambda j, t=new_seq: SInt(t[to_term_int(j)])
+
+
+def _seq_unit(x):
+    if isinstance(x, SObj) and getattr(x, "ident", None) is not None:
+        return z3.Unit(x.ident)
+    if isinstance(x, (int, SInt)) and not isinstance(x, bool):
+        return z3.Unit(to_term_int(x))
+    raise Unsupported("element without identity appended to a list that is tracked as a sequence of identities")
+
+
 def append(cx, l: SList, x) -> None:
     if l.concrete:
         l.items.append(x)
+        return
+    if "seq" in l.ghost:
+        _set_seq(l, z3.Concat(l.ghost["seq"], _seq_unit(x)))
         return
     old_len = l.length
     if "arrays" in l.ghost:
@@ -122,6 +150,18 @@ def extend(cx, l: SList, other) -> None:
         other = SList(list(other))
     if not isinstance(other, SList):
         raise Unsupported("extend with a non-list")
+    if not l.concrete and "seq" in l.ghost:
+        # a list tracked as a sequence of identities: the other list must be one too (found by tools/mutants_fuzz.py: a stale
+        # sequence would make every invariant over it trivially preserved)
+        other_seq = other.ghost.get("seq") if not other.concrete else None
+        if other.concrete:
+            other_seq = z3.Empty(l.ghost["seq"].sort())
+            for x in other.items:
+                other_seq = z3.Concat(other_seq, _seq_unit(x))
+        if other_seq is None:
+            raise Unsupported("extend of a sequence-tracked list by a list that is not tracked as a sequence")
+        _set_seq(l, z3.Concat(l.ghost["seq"], other_seq))
+        return
     was_empty_concrete = False
     if l.concrete:
         if l.items:
